@@ -316,13 +316,14 @@ PLANS = {
         "stages": [
             main_stage(60, 300, tier, death_is_violation=True),
             main_stage(60, 300, tier, build="tsan", name="tsan", death_is_violation=False),
+            main_stage(60, 300, tier, build="asan", name="asan", death_is_violation=True),
             dict(main_stage(90, 300, tier, name="pythreads", death_is_violation=False, shards=8), needs=["py", "cli"], extra=["--prop-alias", "C19"]),
         ] + ([] if tier == "quick" else [
             dict(main_stage(60, 1200, tier, build="miri", name="miri", death_is_violation=False), shards=16),
         ]),
         "require": ["repetitions", "concurrent_results_compared_with_baseline", "overlapping_operation_pairs_between_threads",
                     "tsan.concurrent_results_compared_with_baseline", "tsan.overlapping_operation_pairs_between_threads",
-                    "pythreads.py_thread_results"],
+                    "asan.concurrent_results_compared_with_baseline", "pythreads.py_thread_results"],
         "rule": "each repetition: a fresh world with EVERY plugin type (default input text, prolonged marks, yomigana, MeCab + regex + simple OOV, "
                 "numeric + katakana joining, inhibited connection) and two user dictionaries, loaded aligned or from an odd address; N in "
                 "{2,4,8,16} threads, each with its own tokenizers (one per mode x field subset out of 6 subsets) over the one shared "
@@ -330,7 +331,8 @@ PLANS = {
                 "baseline is computed AFTER the concurrent phase) and run 200 operations each over a shared pool of 60 texts; hook H1 makes "
                 "every 64th matrix / trie access yield. Monitors: every concurrent result == single-threaded result for the same (text, mode, "
                 "subset); digest of the dictionary (all matrix cells, all word parameters, POS list, all word infos) before == after; panic "
-                "in any thread; ThreadSanitizer build of the same workload (happens-before race detection, -Zbuild-std); thorough: Miri with "
+                "in any thread; ThreadSanitizer build of the same workload (happens-before race detection, -Zbuild-std); AddressSanitizer build (a string "
+                "freed by one thread while another still borrows it is a heap-use-after-free there); thorough: Miri with "
                 "16 scheduler seeds (data-race detection, 2-3 threads). Python half: 8 threading.Thread workers over tokenizers created from "
                 "ONE Dictionary, 300 analyses each, results vs a sequential pass, interpreter exit status (no race detector applies to "
                 "CPython). Evidence of interleaving: operations are stamped from one global atomic clock; overlapping_operation_pairs counts "
